@@ -100,15 +100,15 @@ for _pid in ["C03", "C05", "C07", "C13", "C17"]:
 RULES = {
     'C01': "cacheconc stage: 2..16 (thorough ..64) goroutines x 10..120 generated ops on 2..32 shared keys (hot-key bias, some owned keys), GOMAXPROCS 1..16, yielding/fake-sleeping callbacks, setBufSize 1..1024, MaxCost 3..22, inside a synctest bubble; every op and callback stamped from one atomic counter; history oracles are linear-time and schedule-independent. Key types uint64,int,int32,uint32,int64,uint,byte,string,[]byte and named types of them (reflection path of KeyToHash); text keys include the empty key, NUL bytes, one number at several widths, shared prefixes, 8/9-byte keys; a yielding ShouldUpdate predicate in some cases; for string/[]byte also Config.KeyToHash mapping all keys onto 1..3 primary hashes with distinct non-zero conflicts (and a distinct-primaries control). Oracle: every value returned by Get/IterValues was supplied by a Set for exactly that key whose invocation precedes the read's return. stress stage: 4..16 goroutines hammer Set/Get/Del on 2..16 keys for 250 ms of real time per case with a tiny write buffer and an applier stalled inside Config.Cost; every value carries its key in the upper 32 bits and every hit is checked (no history; the count of operations is reported). Non-trivial: >=1 hit on a key sharing its primary hash with another written key, or >=1 hit while a write to the same key was in flight (stress: >1000 checked hits with a stalled applier); distinct = FNV hash of (config, programs).",
     'C02': "cacheconc stage: 2..16 (thorough ..64) goroutines x 10..120 generated ops on 2..32 shared keys (hot-key bias, some owned keys), GOMAXPROCS 1..16, yielding/fake-sleeping callbacks, setBufSize 1..1024, MaxCost 3..22, inside a synctest bubble; every op and callback stamped from one atomic counter; history oracles are linear-time and schedule-independent. Oracle: no Get/IterValues invoked after a value's OnExit stamp returns it. cachesm stage: sequential client + harness-owned applier + synctest fake clock (DESIGN.md section 3, E1). Per case a config (MaxCost fitting 2..5 items or roomy, NumCounters, BufferItems, Metrics, IgnoreInternalCost, Cost fn, ShouldUpdate fn, ticker 1..5 s, setBufSize 1..64, bucket 1|5 s, 8|32 keys) and 5..60+ generated actions from Set/SetWithTTL/Del/Get/GetTTL/IterValues/Step(n)/Wait/park-in-Wait/Advance(d)/Sweep/SweepWith(program inside the j-th OnEvict)/Quiesce/UpdateMaxCost/Clear (stand-in or live applier), always ended by drain + Close + calls on the closed cache. Oracle: reference model with explicit FIFO (rules R1-R9); only assertions owned by this property are reported, a case that breaks another property's assertion first is discarded and counted. C02-owned: no read returns a value already passed to OnExit / already overwritten. Non-trivial (conc): >=1 served value that later exited; (cachesm): eviction, expiry or Del occurred and a drained check saw residents.",
-    'C03': "cachesm stage: sequential client + harness-owned applier + synctest fake clock (DESIGN.md section 3, E1). Per case a config (MaxCost fitting 2..5 items or roomy, NumCounters, BufferItems, Metrics, IgnoreInternalCost, Cost fn, ShouldUpdate fn, ticker 1..5 s, setBufSize 1..64, bucket 1|5 s, 8|32 keys) and 5..60+ generated actions from Set/SetWithTTL/Del/Get/GetTTL/IterValues/Step(n)/Wait/park-in-Wait/Advance(d)/Sweep/SweepWith(program inside the j-th OnEvict)/Quiesce/UpdateMaxCost/Clear (stand-in or live applier), always ended by drain + Close + calls on the closed cache. Oracle: reference model with explicit FIFO (rules R1-R9); only assertions owned by this property are reported, a case that breaks another property's assertion first is discarded and counted. C03-owned: after every applied item RemainingCost()==MaxCost-sum(accounted)==MaxCost-model used; cost>MaxCost never admitted; OnEvict carries the accounted cost; RemainingCost()>=0 when drained unless a cost-raising overwrite occurred. Non-trivial: an admission that needed eviction after a cost-changing overwrite/Del was applied. cacheconc stage: 2..16 (thorough ..64) goroutines x 10..120 generated ops on 2..32 shared keys (hot-key bias, some owned keys), GOMAXPROCS 1..16, yielding/fake-sleeping callbacks, setBufSize 1..1024, MaxCost 3..22, inside a synctest bubble; every op and callback stamped from one atomic counter; history oracles are linear-time and schedule-independent. End state after Wait: RemainingCost identity.",
-    'C04': "cacheconc stage: 2..16 (thorough ..64) goroutines x 10..120 generated ops on 2..32 shared keys (hot-key bias, some owned keys), GOMAXPROCS 1..16, yielding/fake-sleeping callbacks, setBufSize 1..1024, MaxCost 3..22, inside a synctest bubble; every op and callback stamped from one atomic counter; history oracles are linear-time and schedule-independent. Oracle after Close: every value whose Set returned true has exactly one OnExit, none for refused Sets, OnEvict/OnReject <=1 each and before the OnExit, values accepted before a Clear was invoked exit before it returns. cachesm stage: sequential client + harness-owned applier + synctest fake clock (DESIGN.md section 3, E1). Per case a config (MaxCost fitting 2..5 items or roomy, NumCounters, BufferItems, Metrics, IgnoreInternalCost, Cost fn, ShouldUpdate fn, ticker 1..5 s, setBufSize 1..64, bucket 1|5 s, 8|32 keys) and 5..60+ generated actions from Set/SetWithTTL/Del/Get/GetTTL/IterValues/Step(n)/Wait/park-in-Wait/Advance(d)/Sweep/SweepWith(program inside the j-th OnEvict)/Quiesce/UpdateMaxCost/Clear (stand-in or live applier), always ended by drain + Close + calls on the closed cache. Oracle: reference model with explicit FIFO (rules R1-R9); only assertions owned by this property are reported, a case that breaks another property's assertion first is discarded and counted. C04-owned: per-callback bookkeeping, nothing unreleased after Clear/Close. Non-trivial: buffer-full drop + rejection/eviction + a Clear (cachesm: that found buffered items).",
+    'C03': "cachesm stage: sequential client + harness-owned applier + synctest fake clock (DESIGN.md section 3, E1). Per case a config (MaxCost fitting 2..5 items or roomy, NumCounters, BufferItems, Metrics, IgnoreInternalCost, Cost fn, ShouldUpdate fn, ticker 1..5 s, setBufSize 1..64, bucket 1|5 s, 8|32 keys) and 5..60+ generated actions from Set/SetWithTTL/Del/Get/GetTTL/IterValues/Step(n)/Wait/park-in-Wait/Advance(d)/Sweep/SweepWith(program inside the j-th OnEvict)/Quiesce/UpdateMaxCost/Clear (stand-in or live applier), always ended by drain + Close + calls on the closed cache. Oracle: reference model with explicit FIFO (rules R1-R9); only assertions owned by this property are reported, a case that breaks another property's assertion first is discarded and counted. C03-owned: after every applied item RemainingCost()==MaxCost-sum(accounted)==MaxCost-model used; cost>MaxCost never admitted; OnEvict carries the accounted cost; RemainingCost()>=0 when drained unless a cost-raising overwrite occurred. Non-trivial: an admission that needed eviction after a cost-changing overwrite/Del was applied. cacheconc stage: 2..16 (thorough ..64) goroutines x 10..120 generated ops on 2..32 shared keys (hot-key bias, some owned keys), GOMAXPROCS 1..16, yielding/fake-sleeping callbacks, setBufSize 1..1024, MaxCost 3..22, inside a synctest bubble; every op and callback stamped from one atomic counter; history oracles are linear-time and schedule-independent. End state after Wait: RemainingCost identity. (cachesm, drained: a key charged a non-zero cost that the map does not hold breaks 'MaxCost minus the costs of the resident keys' - shared with C13.)",
+    'C04': "cacheconc stage: 2..16 (thorough ..64) goroutines x 10..120 generated ops on 2..32 shared keys (hot-key bias, some owned keys), GOMAXPROCS 1..16, yielding/fake-sleeping callbacks, setBufSize 1..1024, MaxCost 3..22, inside a synctest bubble; every op and callback stamped from one atomic counter; history oracles are linear-time and schedule-independent. Oracle after Close: every value whose Set returned true has exactly one OnExit, none for refused Sets, OnEvict/OnReject <=1 each and before the OnExit, values accepted before a Clear was invoked exit before it returns. cachesm stage: sequential client + harness-owned applier + synctest fake clock (DESIGN.md section 3, E1). Per case a config (MaxCost fitting 2..5 items or roomy, NumCounters, BufferItems, Metrics, IgnoreInternalCost, Cost fn, ShouldUpdate fn, ticker 1..5 s, setBufSize 1..64, bucket 1|5 s, 8|32 keys) and 5..60+ generated actions from Set/SetWithTTL/Del/Get/GetTTL/IterValues/Step(n)/Wait/park-in-Wait/Advance(d)/Sweep/SweepWith(program inside the j-th OnEvict)/Quiesce/UpdateMaxCost/Clear (stand-in or live applier), always ended by drain + Close + calls on the closed cache. Oracle: reference model with explicit FIFO (rules R1-R9); only assertions owned by this property are reported, a case that breaks another property's assertion first is discarded and counted. C04-owned: per-callback bookkeeping, nothing unreleased after Clear/Close (concurrent engine: an OnExit that arrives after a Clear returned is accepted only when it happens inside a Del or a successful Set of the same key that was in flight - that call had detached the value and delivers it; counted). Non-trivial: buffer-full drop + rejection/eviction + a Clear (cachesm: that found buffered items).",
     'C05': "cachesm stage: sequential client + harness-owned applier + synctest fake clock (DESIGN.md section 3, E1). Per case a config (MaxCost fitting 2..5 items or roomy, NumCounters, BufferItems, Metrics, IgnoreInternalCost, Cost fn, ShouldUpdate fn, ticker 1..5 s, setBufSize 1..64, bucket 1|5 s, 8|32 keys) and 5..60+ generated actions from Set/SetWithTTL/Del/Get/GetTTL/IterValues/Step(n)/Wait/park-in-Wait/Advance(d)/Sweep/SweepWith(program inside the j-th OnEvict)/Quiesce/UpdateMaxCost/Clear (stand-in or live applier), always ended by drain + Close + calls on the closed cache. Oracle: reference model with explicit FIFO (rules R1-R9); only assertions owned by this property are reported, a case that breaks another property's assertion first is discarded and counted. C05-owned: once Del(k) returned, the FIFO drained and no Set(k) was issued, every read of k misses. Non-trivial: Del issued while an insert of k was still buffered. cacheconc stage: 2..16 (thorough ..64) goroutines x 10..120 generated ops on 2..32 shared keys (hot-key bias, some owned keys), GOMAXPROCS 1..16, yielding/fake-sleeping callbacks, setBufSize 1..1024, MaxCost 3..22, inside a synctest bubble; every op and callback stamped from one atomic counter; history oracles are linear-time and schedule-independent. Owned keys: Del, Wait, Get by the owner misses; a third of the cases use string keys with engineered primary-hash collisions, owners have two private keys and the pattern Set(a), [Del(b)], Del(a), Wait, Get(a) is generated as a unit.",
     'C06': "cachesm stage: sequential client + harness-owned applier + synctest fake clock (DESIGN.md section 3, E1). Per case a config (MaxCost fitting 2..5 items or roomy, NumCounters, BufferItems, Metrics, IgnoreInternalCost, Cost fn, ShouldUpdate fn, ticker 1..5 s, setBufSize 1..64, bucket 1|5 s, 8|32 keys) and 5..60+ generated actions from Set/SetWithTTL/Del/Get/GetTTL/IterValues/Step(n)/Wait/park-in-Wait/Advance(d)/Sweep/SweepWith(program inside the j-th OnEvict)/Quiesce/UpdateMaxCost/Clear (stand-in or live applier), always ended by drain + Close + calls on the closed cache. Oracle: reference model with explicit FIFO (rules R1-R9); only assertions owned by this property are reported, a case that breaks another property's assertion first is discarded and counted. Roomy configs only: MaxCost 2^40, or 'snug' (2-4 keys, MaxCost = keys x largest generated cost) with the assertion that nothing is evicted or turned away when everything fits. C06-owned: Set return values given FIFO occupancy, every Get/GetTTL/IterValues result equals the reference map (keys with duplicate buffered inserts are outside the premise), buffer empty when the reference FIFO is, a parked Wait returns exactly when its marker is consumed. Non-trivial: a hit on a value whose insert stayed buffered across >=1 other client call and a Wait with >=2 pending items.",
     'C07': "cachesm stage: sequential client + harness-owned applier + synctest fake clock (DESIGN.md section 3, E1). Per case a config (MaxCost fitting 2..5 items or roomy, NumCounters, BufferItems, Metrics, IgnoreInternalCost, Cost fn, ShouldUpdate fn, ticker 1..5 s, setBufSize 1..64, bucket 1|5 s, 8|32 keys) and 5..60+ generated actions from Set/SetWithTTL/Del/Get/GetTTL/IterValues/Step(n)/Wait/park-in-Wait/Advance(d)/Sweep/SweepWith(program inside the j-th OnEvict)/Quiesce/UpdateMaxCost/Clear (stand-in or live applier), always ended by drain + Close + calls on the closed cache. Oracle: reference model with explicit FIFO (rules R1-R9); only assertions owned by this property are reported, a case that breaks another property's assertion first is discarded and counted. TTL-heavy profile with Advance to exp-1ns/exp/exp+1ns. C07-owned: reads serve an entry iff now<=expiration (either answer at the instant), GetTTL == remaining time exactly, (0,true) without TTL, negative ttl returns false. Non-trivial: an observation within 1ns of an expiration and a TTL replaced while the old one was pending. cacheconc stage: 2..16 (thorough ..64) goroutines x 10..120 generated ops on 2..32 shared keys (hot-key bias, some owned keys), GOMAXPROCS 1..16, yielding/fake-sleeping callbacks, setBufSize 1..1024, MaxCost 3..22, inside a synctest bubble; every op and callback stamped from one atomic counter; history oracles are linear-time and schedule-independent. A read invoked after call-time+ttl never returns the value.",
     'C08': 'cacheconc stage: 2..16 (thorough ..64) goroutines x 10..120 generated ops on 2..32 shared keys (hot-key bias, some owned keys), GOMAXPROCS 1..16, yielding/fake-sleeping callbacks, setBufSize 1..1024, MaxCost 3..22, inside a synctest bubble; every op and callback stamped from one atomic counter; history oracles are linear-time and schedule-independent. All twelve call types (UpdateMaxCost also lowering and toggling the capacity), clients that wake exactly at expiry ticks, under -race with GORACE halt_on_error. Oracle: race detector, panics in any goroutine, a virtual-time watchdog (24h of fake time pass only if every goroutine is durably blocked) and a stop-the-world goroutine census for mutex deadlocks (no goroutine running cache code runnable, one or more waiting for a mutex, twice 3 s apart). Non-trivial: >=3 distinct call types overlapped in time on one key, or a Clear ran in a case with hits.',
     'C13': "cachesm stage: sequential client + harness-owned applier + synctest fake clock (DESIGN.md section 3, E1). Per case a config (MaxCost fitting 2..5 items or roomy, NumCounters, BufferItems, Metrics, IgnoreInternalCost, Cost fn, ShouldUpdate fn, ticker 1..5 s, setBufSize 1..64, bucket 1|5 s, 8|32 keys) and 5..60+ generated actions from Set/SetWithTTL/Del/Get/GetTTL/IterValues/Step(n)/Wait/park-in-Wait/Advance(d)/Sweep/SweepWith(program inside the j-th OnEvict)/Quiesce/UpdateMaxCost/Clear (stand-in or live applier), always ended by drain + Close + calls on the closed cache. Oracle: reference model with explicit FIFO (rules R1-R9); only assertions owned by this property are reported, a case that breaks another property's assertion first is discarded and counted. C13-owned at every drained point: keys(accounting)==keys(map)==model, IterValues yields each unexpired resident value once and stops when asked, RemainingCost()==MaxCost when nothing is left. Non-trivial: eviction + expiry sweep + Del in the case and a drained check with residents. cacheconc stage: 2..16 (thorough ..64) goroutines x 10..120 generated ops on 2..32 shared keys (hot-key bias, some owned keys), GOMAXPROCS 1..16, yielding/fake-sleeping callbacks, setBufSize 1..1024, MaxCost 3..22, inside a synctest bubble; every op and callback stamped from one atomic counter; history oracles are linear-time and schedule-independent. End state: accounting keys == map keys, IterValues == map values.",
     'C14': "cachesm stage: sequential client + harness-owned applier + synctest fake clock (DESIGN.md section 3, E1). Per case a config (MaxCost fitting 2..5 items or roomy, NumCounters, BufferItems, Metrics, IgnoreInternalCost, Cost fn, ShouldUpdate fn, ticker 1..5 s, setBufSize 1..64, bucket 1|5 s, 8|32 keys) and 5..60+ generated actions from Set/SetWithTTL/Del/Get/GetTTL/IterValues/Step(n)/Wait/park-in-Wait/Advance(d)/Sweep/SweepWith(program inside the j-th OnEvict)/Quiesce/UpdateMaxCost/Clear (stand-in or live applier), always ended by drain + Close + calls on the closed cache. Oracle: reference model with explicit FIFO (rules R1-R9); only assertions owned by this property are reported, a case that breaks another property's assertion first is discarded and counted. Roomy TTL profile with Sweep, SweepWith programs (Set with later/no/short TTL, Del, Get on keys of the swept bucket, executed inside the first or second OnEvict of the sweep), late application scenarios and Quiesce. C14-owned: a sweep removes only entries whose current expiration is non-zero and has passed; after Quiesce nothing expired for > 2 buckets is left. Non-trivial: a sweep removed >=1 entry while another entry was re-written during the sweep or applied after its expiry. backlog stage (fake clock): 1..6 writers outpace an applier that spends 0.5..3 ms of fake time per item, write buffer 1..1024, 1..4 entries with ttl 1 ms..2.5 s expire meanwhile; once the tick that finds their bucket due has fired, the entries must be reclaimed (each reported once) before the applier has taken 80 more items; non-trivial: the write buffer was non-empty at >= 9 of 10 sampling instants (every 5 ms of fake time) and the entries were reclaimed under that load.",
-    'C15': "cachesm stage: sequential client + harness-owned applier + synctest fake clock (DESIGN.md section 3, E1). Per case a config (MaxCost fitting 2..5 items or roomy, NumCounters, BufferItems, Metrics, IgnoreInternalCost, Cost fn, ShouldUpdate fn, ticker 1..5 s, setBufSize 1..64, bucket 1|5 s, 8|32 keys) and 5..60+ generated actions from Set/SetWithTTL/Del/Get/GetTTL/IterValues/Step(n)/Wait/park-in-Wait/Advance(d)/Sweep/SweepWith(program inside the j-th OnEvict)/Quiesce/UpdateMaxCost/Clear (stand-in or live applier), always ended by drain + Close + calls on the closed cache. Oracle: reference model with explicit FIFO (rules R1-R9); only assertions owned by this property are reported, a case that breaks another property's assertion first is discarded and counted. Clear/Close-heavy profile with parked waiters. C15-owned: after Clear every key misses, map and expiry index empty, access-frequency state zero, RemainingCost()==MaxCost(), metrics zero, parked waiters released, all previously live values exited once, run continues on the fresh model; after Close: Set false/Get miss/calls return, no processItems goroutine left, no callbacks. Non-trivial: a Clear found a buffered new item and a buffered update or tombstone.",
+    'C15': "cachesm stage: sequential client + harness-owned applier + synctest fake clock (DESIGN.md section 3, E1). Per case a config (MaxCost fitting 2..5 items or roomy, NumCounters, BufferItems, Metrics, IgnoreInternalCost, Cost fn, ShouldUpdate fn, ticker 1..5 s, setBufSize 1..64, bucket 1|5 s, 8|32 keys) and 5..60+ generated actions from Set/SetWithTTL/Del/Get/GetTTL/IterValues/Step(n)/Wait/park-in-Wait/Advance(d)/Sweep/SweepWith(program inside the j-th OnEvict)/Quiesce/UpdateMaxCost/Clear (stand-in or live applier), always ended by drain + Close + calls on the closed cache. Oracle: reference model with explicit FIFO (rules R1-R9); only assertions owned by this property are reported, a case that breaks another property's assertion first is discarded and counted. Clear/Close-heavy profile with parked waiters. C15-owned: after Clear every key misses, map and expiry index empty, access-frequency state zero, RemainingCost()==MaxCost(), the accounting names no key, metrics zero, parked waiters released, all previously live values exited once, run continues on the fresh model; after Close: Set false/Get miss/calls return, no processItems goroutine left, no callbacks. Non-trivial: a Clear found a buffered new item and a buffered update or tombstone.",
     'C17': "cachesm stage: sequential client + harness-owned applier + synctest fake clock (DESIGN.md section 3, E1). Per case a config (MaxCost fitting 2..5 items or roomy, NumCounters, BufferItems, Metrics, IgnoreInternalCost, Cost fn, ShouldUpdate fn, ticker 1..5 s, setBufSize 1..64, bucket 1|5 s, 8|32 keys) and 5..60+ generated actions from Set/SetWithTTL/Del/Get/GetTTL/IterValues/Step(n)/Wait/park-in-Wait/Advance(d)/Sweep/SweepWith(program inside the j-th OnEvict)/Quiesce/UpdateMaxCost/Clear (stand-in or live applier), always ended by drain + Close + calls on the closed cache. Oracle: reference model with explicit FIFO (rules R1-R9); only assertions owned by this property are reported, a case that breaks another property's assertion first is discarded and counted. Metrics on. C17-owned at drained points: Hits+Misses==Gets since creation/Clear, KeysAdded-KeysEvicted==resident keys, CostAdded-CostEvicted==MaxCost-RemainingCost (mod 2^64), SetsDropped==refused new-key Sets (and Set returns false iff the reference FIFO is full), GetsKept+GetsDropped<=Gets. Non-trivial: cost-lowering overwrite + eviction + drop. cacheconc stage: 2..16 (thorough ..64) goroutines x 10..120 generated ops on 2..32 shared keys (hot-key bias, some owned keys), GOMAXPROCS 1..16, yielding/fake-sleeping callbacks, setBufSize 1..1024, MaxCost 3..22, inside a synctest bubble; every op and callback stamped from one atomic counter; history oracles are linear-time and schedule-independent. End state laws from the history.",
     "C09": "policyconc stage: one Add that must evict 200..60000 cold residents runs while 1..6 batches of 64 unrelated recorded accesses are pushed 0..4 ms after it started, with the counters 1..200 (or far) from the TinyLFU reset; estimates of every tracked key are read before and after; every victim and a rejection must be justified by the reading before or by the reading after the halving (cases where a noise key touched a tracked counter are discarded and counted). Non-trivial: the period was completed by a concurrent batch, the newcomer lies between the halved and un-halved estimate of a hot resident, and something was evicted. policy stage: newDefaultPolicy with NumCounters 2..512, population 0..12 keys (costs 1 / 1..10 / 0..100) built through "
            "the fast path, 0..20 recorded accesses per key (round-robin, plus noise keys), MaxCost = sum + slack (0, 0..3, 0..60), "
@@ -119,7 +119,7 @@ RULES = {
            "only for cost > MaxCost, resident key, or a strictly more frequent candidate (exactly: min estimate > newcomer's for "
            "small populations); accounting after the decision equals residents - victims (+ newcomer). Non-trivial: the decision "
            "needed >=1 eviction or ended in an out-voted rejection, with >=2 residents and >=2 distinct estimates among them; "
-           "distinct = FNV hash of the case. cachesm stage: the same judge applied to every buffered insert the state machine applies (estimates snapshotted under the policy lock after synctest.Wait), victims/rejection observed through OnEvict/OnReject.",
+           "distinct = FNV hash of the case. cachesm stage: the same judge applied to every buffered insert the state machine applies (estimates snapshotted under the policy lock after synctest.Wait), victims/rejection observed through OnEvict/OnReject; a newcomer turned away as 'already resident' needs the key in the map or a Del of it on its way in the write buffer.",
     "C12": "seq stage: rapid state machine: initial size 0..8192; Allocate / AllocateAligned / Copy with sizes 0, 1..64, remaining-1, "
            "remaining, remaining+1, around the chunk end, 2*chunk+1, up to 1 MiB; Reset, TrimTo(m > first chunk)+Reset, and "
            "Reset+replay of the requests since the last Reset. Oracle: exact length, pairwise disjoint address intervals, every "
@@ -147,14 +147,14 @@ RULES = {
            "answers on both sides of JSONMarshal/JSONUnmarshal for all used hashes and probes (the run continues on the "
            "reconstructed filter). Non-trivial: >=64 members at the time of a round trip and >=1 special-pattern hash used; distinct = FNV "
            "hash of (parameters, ops).",
-    "C18": "sketch stage: cmSketch with NumCounters 2..4096 (powers of two, +-1, small) and generated or random row seeds; ops "
+    "C18": "sketch stage: cmSketch with NumCounters 2..4096 and around 2^13..2^20 (powers of two, +-1, small) and generated or random row seeds; ops "
            "Increment x n / Estimate / Reset / Clear over hashes that repeat, share all counters (same low bits) or the same byte "
            "(neighbour counter) with used hashes; oracle = reference [4][]uint8 table with the sketch's own seeds, compared cell by "
            "cell (after every op for <=256 counters, after Reset/Clear/last op otherwise) + table size == next power of two. "
            "lfu stage: tinyLFU with NumCounters 2..512: min(n,15) <= Estimate <= 16 for n recorded accesses since the last aging "
            "reset, no access lowers any tracked estimate, reset exactly every NumCounters accesses halving every counter and "
            "dropping all first-access marks, clear zeroes everything. enum stage: all 256 byte values x both halves for "
-           "get/increment/reset/clear (exhaustive). Non-trivial: a counter saturated and an aging reset happened afterwards; "
+           "get/increment/reset/clear (exhaustive); next2Power(2^e+d) for e=1..62, d=-3..3 and the table size for e<=22. Non-trivial: a counter saturated and an aging reset happened afterwards; "
            "distinct = FNV hash of (NumCounters, ops).",
     "C10": "rapid state machine over z.Tree against map[uint64]uint64: per case a page size (4..255 keys per page, biased to 4..9), "
            "1..90 ops from Set/Get/DeleteBelow/IterateKV/rewriting IterateKV/Reset/ascending-descending runs/(rarely) a bulk insert "
@@ -165,7 +165,7 @@ RULES = {
            "reused a free page; distinct = FNV hash of (page size, op list).",
     "C16": "as C10 on NewTreePersistent in a per-case file with page sizes 80..4096 plus a Reopen op (Close; "
            "NewTreePersistent) anywhere; after Reopen: Stats equal except Allocated, full Get/IterateKV agreement with the model, "
-           "page-structure invariant (free list acyclic, length NumPagesFree, disjoint from reachable, union = all pages); rare plans: outgrow the file before and after a reopen; fill to the last whole page slot of the initial file (+-1) and reopen. Non-trivial: "
+           "page-structure invariant (free list acyclic, length NumPagesFree, disjoint from reachable, union = all pages); rare plans: outgrow the file before and after a reopen; fill to the last whole page slot of the initial file (+-1) and reopen; outgrow the file by a few pages, reopen (the whole file is mapped, its usable part an exact multiple of the page size), fill that mapping to its last whole slot (-1..+2), reopen. Faults (stale slice into a moved mapping) are turned into panics of the case. Non-trivial: "
            ">=1 Reopen with >=2 free pages and a later Set that consumed a free page; distinct = FNV hash of (page size, op list).",
     "C20": "rapid generator: even length 0..520 (biased to small and to 8-word block edges), offset 0..9 in a backing "
            "array with 8..17 adversarial words behind the slice, ascending keys (dense/sparse/saturating/duplicates), 0..pad words of spare capacity behind len(xs), "
